@@ -261,6 +261,7 @@ func TestC15Index(t *testing.T) {
 	r.Rule = "rapid: programs with one block-index module (reading the block, or a mapper that skips outputs) and 2..4 filtered modules sharing it (single-key bare/quoted/parenthesised filters and and/or combinations, different initial blocks, optionally a filtered store) feeding one output mapper; a production request over 1..3 back-filled segments run (1) on an empty cache (index being built by the jobs), (2) on a cache holding only the index files of (1), (3) on a subset of them, each compared with the sequential dev-mode execution, in which every filtered module must have run exactly on the blocks whose own keys satisfy its filter; non-trivial = at least one block skipped and one not skipped, and index files existed"
 	rapid.Check(t, func(rt *rapid.T) {
 		c := genC15E2E(rt)
+		r.Begin(c)
 		f, st := checkC15E2E(c)
 		r.Case(c, st.indexFiles > 0 && st.skipped > 0 && st.notSkip > 0, fmt.Sprintf("index-files<=%d", bucketInt(st.indexFiles)))
 		r.Report(rt, c, f)
